@@ -13,7 +13,8 @@ import (
 	"github.com/welllog/golib/zzsim/core"
 )
 
-const nKeys = 4
+// nKeys is the size of the key space of a run (4 mostly; 8 or 16 rarely).
+var nKeys = 4
 
 type inst struct {
 	m    *mapz.SafeKV[int, int]
@@ -22,6 +23,7 @@ type inst struct {
 
 func (x *inst) Do(t int, op sim.Op) sim.Rec {
 	var r sim.Rec
+	op = clampOp(op)
 	switch op.Op {
 	case "Get":
 		r.V, r.OK = x.m.Get(op.K)
@@ -110,6 +112,21 @@ func (x *inst) Do(t int, op sim.Op) sim.Rec {
 	return r
 }
 
+func clampOp(op sim.Op) sim.Op {
+	op.K = ((op.K % nKeys) + nKeys) % nKeys
+	if len(op.Ks) > 0 {
+		ks := make([]int, len(op.Ks))
+		for i, k := range op.Ks {
+			ks[i] = ((k % nKeys) + nKeys) % nKeys
+		}
+		op.Ks = ks
+	}
+	if op.Op == "MapMove" && (len(op.Ks) < 2 || op.Ks[0] == op.Ks[1]) {
+		op.Ks = []int{op.K, (op.K + 1) % nKeys}
+	}
+	return op
+}
+
 var opNames = []string{"Get", "Set", "SetNx", "SetX", "Delete", "Has", "Contains", "Len", "Keys", "Values", "Range", "All",
 	"GetWithMap", "GetWithLock", "MapMove", "MapSetLen", "Clear"}
 
@@ -119,6 +136,8 @@ func gen(r *sim.Rng, tier string) *sim.Case {
 		maxT, maxOps = 5, 7
 	}
 	c := &sim.Case{Params: map[string]int{}}
+	nKeys = []int{4, 4, 4, 4, 4, 4, 4, 8, 8, 16}[r.N(10)]
+	c.Params["nkeys"] = nKeys
 	c.Params["init_mask"] = r.N(1 << nKeys)
 	nT := r.Range(2, maxT)
 	if r.Pct(10) {
@@ -183,7 +202,18 @@ func gen(r *sim.Rng, tier string) *sim.Case {
 	return c
 }
 
+func setKeys(c *sim.Case) {
+	nKeys = c.P("nkeys")
+	if nKeys < 4 {
+		nKeys = 4
+	}
+	if nKeys > 16 {
+		nKeys = 16
+	}
+}
+
 func build(c *sim.Case) enga.Instance {
+	setKeys(c)
 	x := &inst{m: mapz.NewSafeKV[int, int](r2(c.P("init_mask"))), init: map[int]int{}}
 	for k := 0; k < nKeys; k++ {
 		if c.P("init_mask")&(1<<k) != 0 {
@@ -255,7 +285,7 @@ func eqInts(a, b []int) bool {
 
 func step(state, input, output interface{}) (bool, interface{}) {
 	s := state.(string)
-	op := input.(kvIn).op
+	op := clampOp(input.(kvIn).op)
 	r := output.(kvOut).r
 	m := dec(s)
 	switch op.Op {
